@@ -33,6 +33,32 @@ def scaling_cases():
     return out
 
 
+def deep_cases(n):
+    """inputs nested / chained [n] levels deep: any per-level native recursion in lex, parse or build
+    (the shipped code is iterative throughout) exhausts the small stack the stress worker is given"""
+    shapes = {
+        "nest": lambda n: "(" * n + "1" + ")" * n,
+        "nestexpr": lambda n: "{" * n + "1" + "}" * n,
+        "sidefx": lambda n: "[" * n + "1" + "]" * n + " 5",
+        "prefix": lambda n: "--" * n + "1",
+        "suffix": lambda n: "1" + "~~" * n,
+        "sum": lambda n: "+".join(["1"] * n),
+        "pairs": lambda n: "=".join(["1"] * n),
+        "list": lambda n: " ".join(["1"] * n),
+        "comma": lambda n: ",".join(["1"] * n),
+        "access": lambda n: ".".join(["a"] * n),
+        "chain": lambda n: " |> ".join(["$ ?> 1"] * n),
+        "seq": lambda n: "\n\n".join(["1"] * n),
+        "mixed": lambda n: "(1+" * n + "1" + ")" * n,
+        "mixed_expr": lambda n: "{1 " * n + "1" + "}" * n,
+        "unclosed": lambda n: "(" * n + "1",
+        "unopened": lambda n: "1" + ")" * n,
+        "quotes": lambda n: '"' + "a" * n,
+        "operators": lambda n: "+" * n,
+    }
+    return [(name, n, "S " + gen_programs.hexcp(f(n))) for name, f in shapes.items()]
+
+
 def run(tier, seed):
     v = Verdict(PID, tier, seed)
     v.assumptions = ["token texts of T cases are fixed representatives per token type",
@@ -80,6 +106,20 @@ def run(tier, seed):
                 if len(samples) < 8 and i == len(impl) // 3:
                     samples.append({"stream": sname, "case": pipecheck.describe(case, names), "impl": res[:160]})
             stats[sname + ":model_disagreements"] += ndiff
+        # deep / long inputs, implementation only, 256 KiB of native stack
+        dc = deep_cases(12000 if tier == "thorough" else 6000)
+        dimpl, derr = pipecheck.run_stress(exe, [c for _, _, c in dc])
+        if derr:
+            v.tie_failure("stress run: " + derr)
+        for (name, n, _), line in zip(dc, dimpl or []):
+            f = line.split("\t")
+            res = f[1] if len(f) > 1 else "?"
+            evaluations += 1
+            cls = "HANG" if res == "HANG" else "CRASH" if res == "CRASH" else "PANIC" if "PANIC" in res else "ok"
+            stats["deep:" + cls] += 1
+            if cls != "ok":
+                v.violation(component="pipeline", stream="deep", input="deep %s n=%d" % (name, n), impl=res[:100],
+                            what="input nested/chained %d levels deep (shape %s) did not return Ok or Err with 256 KiB of native stack: %s" % (n, name, cls))
         if tier == "thorough":
             sc = scaling_cases()
             impl, _, err = pipecheck.run(exe, None, [c for _, _, c in sc], timeout=600)
@@ -122,6 +162,22 @@ def replay(obj):
     v = Verdict(PID, "quick", obj.get("seed", 0))
     exe, drv = pipecheck.build_runners(v, need_model=False)
     cases = [x["input"] for x in obj.get("violations", []) if x.get("input", "").startswith(("T ", "S "))]
+    deep = [x["input"] for x in obj.get("violations", []) if x.get("input", "").startswith("deep ")]
+    if deep:
+        rc = 0
+        for d in deep:
+            _, name, nn = d.split(" ")
+            n = int(nn.split("=")[1])
+            dc = [c for c in deep_cases(n) if c[0] == name]
+            dimpl, derr = pipecheck.run_stress(exe, [c for _, _, c in dc])
+            for line in dimpl or []:
+                res = line.split("\t")[1]
+                bad = res in ("HANG", "CRASH") or "PANIC" in res
+                rc |= 1 if bad else 0
+                print("%s: %s -> %s" % ("FAILS" if bad else "ok", d, res[:80]))
+        if not cases:
+            pipecheck.cleanup(exe)
+            return rc
     if not cases:
         print("replay names a broken tie, not an input:", obj.get("no_longer_checks"))
         return run("quick", obj.get("seed", 0))
